@@ -3,10 +3,14 @@
    order, exactly what a read would have returned next followed by the
    not-yet-windowed second half of the last block, inside the buffer, for all
    four window transitions and both buffer phases; the splice writes only the
-   first min(n1,n2) cells from the read position.  Landing (= the plain seek's)
+   first min(n1,n2) cells from the read position; and the bookkeeping behind
+   "lands where the plain seek lands": a lapped seek is the plain seek followed
+   by priming (fetch until something is pending), lapout and the splice - and
+   priming after a truthful seek on an intact run leaves the reported position
+   unchanged (Prime_lemmas.v).  Landing on real streams (= the plain seek's)
    and the values (bit-identical outside the region, window-weighted cross-fade
    inside) are established per run on twin handles. *)
-From VV Require Import Blocking Blocking_lemmas Overlap Overlap_lemmas.
+From VV Require Import Blocking Blocking_lemmas Overlap Overlap_lemmas VFile Seek_lemmas Read_lemmas Prime_lemmas.
 Local Open Scope Z_scope.
 
 Theorem C19_lapout_contiguous :
@@ -50,3 +54,11 @@ Example C19_nonvacuous :
   let s2 := snd (dec_blockin c (snd (dec_blockin c (dec_init c) b1)) b2) in
   SizesOK c /\ AfterBlockin c s2 /\ fst (dec_lapout c s2) = 112.
 Proof. unfold SizesOK, AfterBlockin, half; vm_compute. repeat split; try lia; try (left; reflexivity); discriminate. Qed.
+
+(* priming after a truthful seek keeps the reported position (and ends with samples pending) *)
+Theorem C19_priming_keeps_reported_position :
+  forall (tail : list page) s pos,
+    Truthful tail s pos -> (2 <= length (stream tail s))%nat ->
+    exists sp, prime (read_fuel s) s = PReady sp /\ v_pcm sp = v_pcm s /\ 0 < pending sp.
+Proof. exact priming_keeps_position. Qed.
+Print Assumptions C19_priming_keeps_reported_position.
